@@ -243,6 +243,24 @@ def rec_contains(space, t, v) -> dict:
     return ev
 
 
+def rekey(x):
+    """the same nested value with the keys of every dictionary (>= 2 keys) in reversed order; None if nothing changes"""
+    changed = [False]
+
+    def go(y):
+        if isinstance(y, (dict, OrderedDict)):
+            items = [(k, go(v)) for k, v in y.items()]
+            if len(items) >= 2:
+                changed[0] = True
+                items.reverse()
+            return OrderedDict(items)
+        if isinstance(y, tuple):
+            return tuple(go(v) for v in y)
+        return y
+    out = go(x)
+    return out if changed[0] else None
+
+
 def rec_space(t, probes, others, keys, rng) -> list:
     """all events for one space term; each event becomes its own trace"""
     space = build_space(t)
@@ -261,6 +279,18 @@ def rec_space(t, probes, others, keys, rng) -> list:
             fl = np.asarray(space.flatten_sample(q))
             evs.append(dict(ev="flatten", v=proj_value(q), len=int(fl.shape[0]) if fl.ndim == 1 else -1,
                             flat_size=int(space.flat_size), vals=[enc(c) for c in fl.reshape(-1)]))
+            # the same mapping with every dictionary's keys listed in the opposite order: where the implementation accepts it
+            # as a member (it looks entries up by key), its flat vector must still be the one of the mapping
+            q2 = rekey(q)
+            if q2 is not None:
+                try:
+                    member = bool(np.asarray(space.contains(q2)).all())
+                except Exception:  # noqa: BLE001 - membership of re-keyed values is judged nowhere (open in the property text)
+                    member = False
+                if member:
+                    fl2 = np.asarray(space.flatten_sample(q2))
+                    evs.append(dict(ev="flatten", v=proj_value(q2), len=int(fl2.shape[0]) if fl2.ndim == 1 else -1,
+                                    flat_size=int(space.flat_size), vals=[enc(c) for c in fl2.reshape(-1)], rekeyed=True))
     def reorder(tt):
         """the same Dict keys in another order, at the first Dict found (None if there is none with >= 2 keys)"""
         if tt["k"] == "Dict" and len(tt["keys"]) >= 2:
